@@ -338,6 +338,61 @@ def opsOf (nS nM : Nat) (es : List MEv) (drum : Bool) : List Op := (runI (es.map
 /-- loops are balanced: depth 0 at the end (a loop end at depth 0 makes `convert_track` fail) -/
 def balanced (es : List MEv) : Bool := es.foldl (fun d ev => dstep ev.type d) 0 == 0
 
+/-- the fragment of the reader tie: the list ends with its only terminator, all events have a
+defined encoding, loops are balanced -/
+def Frag (es : List MEv) : Prop :=
+  ∃ body t, es = body ++ [t] ∧ (∀ ev ∈ body, okEv ev = true ∧ isTermOp ev.type = false) ∧
+    (okEv t = true ∧ isTermOp t.type = true) ∧ balanced es = true
+
+/-- `Frag`, decided -/
+def fragB (es : List MEv) : Bool :=
+  match es.getLast? with
+  | none => false
+  | some t => es.dropLast.all (fun ev => okEv ev && !isTermOp ev.type) && okEv t && isTermOp t.type && balanced es
+
+theorem fragB_sound {es : List MEv} (h : fragB es = true) : Frag es := by
+  unfold fragB at h
+  cases hl : es.getLast? with
+  | none => simp [hl] at h
+  | some t =>
+    simp only [hl, Bool.and_eq_true, List.all_eq_true, Bool.not_eq_eq_eq_not, Bool.not_true] at h
+    obtain ⟨⟨⟨h1, h2⟩, h3⟩, h4⟩ := h
+    have hes : es = es.dropLast ++ [t] := by
+      have hne : es ≠ [] := by intro hc; rw [hc] at hl; simp at hl
+      have := List.dropLast_concat_getLast hne
+      rw [List.getLast?_eq_getLast hne] at hl
+      injection hl with hl; rw [hl] at this; exact this.symm
+    exact ⟨es.dropLast, t, hes, fun ev hev => h1 ev hev, ⟨h2, h3⟩, h4⟩
+
+/-- a converted list that ends with a terminator is not empty -/
+theorem convertTrack_ne (nS nM : Nat) (body : List MEv) (t : MEv) (ht : okEv t = true ∧ isTermOp t.type = true)
+    {bytes : List Nat} (h : convertTrack nS nM (body ++ [t]) = .ok bytes) : bytes ≠ [] := by
+  unfold convertTrack at h
+  cases h0 : encAll nS nM {} (body ++ [t]) with
+  | error x => simp [h0, Except.map] at h
+  | ok e' =>
+    simp only [h0, Except.map, Except.ok.injEq] at h
+    rw [encAll_append] at h0
+    cases h1 : encAll nS nM {} body with
+    | error x => simp [h1] at h0
+    | ok e1 =>
+      simp only [h1] at h0
+      cases h2 : encEv nS nM e1 t with
+      | error x => simp [encAll, h2] at h0
+      | ok e2 =>
+        simp only [encAll, h2, Except.ok.injEq] at h0
+        subst h0
+        cases encEv_shape nS nM ht.1 h2 with
+        | same _ _ _ _ hnt => rw [ht.2] at hnt; cases hnt
+        | rest _ hty => rw [hty] at ht; exact absurd ht.2 (by decide)
+        | note _ h2' =>
+          have := ht.2
+          simp [isTermOp, mds_FINISH, mds_JUMP, mds_DMFINISH, mds_SLR] at this h2'; omega
+        | segno hty => rw [hty] at ht; exact absurd ht.2 (by decide)
+        | lpb _ hty => rw [hty] at ht; exact absurd ht.2 (by decide)
+        | lpf _ _ hty => rw [hty] at ht; exact absurd ht.2 (by decide)
+        | cmd b r _ _ ho => rw [← h, ho]; simp
+
 /-- **the decoder on a converted track**: for an event list `body ++ [t]` of the fragment `okEv`
 whose only terminator (`FINISH` / `JUMP` / `DMFINISH`) is its last event, with balanced loops and
 a stream shorter than 64 KiB, `decodeStream` started at the stream — wherever it lies in the chunk
